@@ -666,7 +666,7 @@ func iteratorValuePerItem(c *cx, id string, in func(f *eng.Fn) bool) {
 					continue
 				}
 				// a delegation to the next item (return i.Next()) is judged there
-				if cl, ok := ast.Unparen(rs.Results[0]).(*ast.CallExpr); ok && calleeFunc(f, cl) != nil && calleeFunc(f, cl) == f.Obj {
+				if cl, ok := ast.Unparen(retResults(f, rs)[0]).(*ast.CallExpr); ok && calleeFunc(f, cl) != nil && calleeFunc(f, cl) == f.Obj {
 					continue
 				}
 				n++
